@@ -811,7 +811,8 @@ def buffer_simulation(self, tier='quick'):
                     if es > 1:
                         st.mem[(dst[1], base + (r0 + t // es, t % es))] = fsym[pos + t]
                     else:
-                        st.mem[(dst[1], base + (r0 + t,))] = fsym[pos + t]
+                        q = I.ptr_add(st, dst, C(t))        # byte t from dst (rows of a two-dimensional member array carry over)
+                        st.mem[(q[1], q[2])] = fsym[pos + t]
                 st.comps[('cfpos', root)] = pos + k
                 return [(st, C(k))]
 
